@@ -10,7 +10,7 @@ PROPS = {
     "C15": dict(
         model_files=BUILD_MODEL + ["XmlNameTables", "XmlTok", "P_XmlTok"],
         trusted_base=[KERNEL, GEN, HARNESS, _ETREE,
-                      "hand-written model XmlTok.v of the byte -> token -> tree step: encoding/xml (go1.24.0) Decoder.RawToken as etree v1.5.0 configures it (Strict, pass-through CharsetReader, no Entity map, no AutoClose) incl. isName with the two unicode range tables (XmlNameTables.v, transcribed from xml.go by tools/mkxmlnames.py; every table boundary is re-derived from the REAL decoder on each C09 run), entity expansion, CR / CRLF handling, the ]]> rule, UTF-8 and Char-range checks after expansion, <?xml?> version / encoding checks (procInst), directive scanning with quotes / nesting / comments; etree Element.readFrom (stack of open elements, end-tag check by (Space, Local), one CharData child per token - v1.5.0 does not merge -, attribute de-duplication unless PreserveDuplicateAttrs, Root() = first top-level element); token_view = what the Token() loop of xml.Unmarshal consumes (nesting check, stops at the end tag of the first element, NO CharsetReader). Nothing is outside_model. Tied to the real libraries by the xmltok stream (run under C09 and C20) (fixed cases, table boundaries, documents presented by the other streams, builder outputs, truncations / bit flips, grammar-based generator): token lists compared exactly, trees by node equality",
+                      "hand-written model XmlTok.v of the byte -> token -> tree step: encoding/xml (go1.24.0) Decoder.RawToken as etree v1.5.0 configures it (Strict, pass-through CharsetReader, no Entity map, no AutoClose) incl. isName with the two unicode range tables (XmlNameTables.v, transcribed from xml.go by tools/mkxmlnames.py; every table boundary is re-derived from the REAL decoder on each C09 run), entity expansion, CR / CRLF handling, the ]]> rule, UTF-8 and Char-range checks after expansion, <?xml?> version / encoding checks (procInst), directive scanning with quotes / nesting / comments; etree Element.readFrom (stack of open elements, end-tag check by (Space, Local), one CharData child per token - v1.5.0 does not merge -, attribute de-duplication unless PreserveDuplicateAttrs, Root() = first top-level element); token_view = what the Token() loop of Decoder.Decode consumes for a fresh decoder with the pass-through CharsetReader - gosaml2's xmlUnmarshalDocument since 6cc4dbc (nesting check, stops at the end tag of the first element); token_view_original = the same with NO CharsetReader (xml.Unmarshal, the pre-decoders before that repair); both compared with decoders configured that way. Nothing is outside_model. Tied to the real libraries by the xmltok stream (run under C09 and C20) (fixed cases, table boundaries, documents presented by the other streams, builder outputs, truncations / bit flips, grammar-based generator): token lists compared exactly, trees by node equality",
                       "hand-written model Build.v of buildAuthnRequest / buildLogoutRequest / buildLogoutResponse (build_request.go, build_logout_response.go); "
                       "the random request id and the clock instant are inputs",
                       "Time.v model of t.UTC().Format(issueInstantFormat) and of time.Parse(RFC3339) (TimeProofs.parse_format_utc_seconds_floor; differentially tested by timediff)",
